@@ -35,6 +35,14 @@ namespace awsim {
 
       explicit Walker(std::string& o) : out(o), budget(2000000) { }
 
+      // length() of a 0-d NumpyArray reads shape[0] of an empty vector: never ask the library for it
+      static int64_t safe_len(const ak::Content* c) {
+        if (const ak::NumpyArray* np = dynamic_cast<const ak::NumpyArray*>(c)) {
+          if (np->shape().empty()) throw WalkError("walker: scalar NumpyArray where an array is expected");
+        }
+        return c->length();
+      }
+
       void spend() {
         if (--budget < 0) throw WalkError("value too large to dump");
       }
@@ -122,7 +130,7 @@ namespace awsim {
         std::string ap = array_param(parent);
         if (ap == "string") { bytes_of(content, start, stop, "s"); return; }
         if (ap == "bytestring") { bytes_of(content, start, stop, "b"); return; }
-        if (start < 0  ||  stop < start  ||  stop > content->length()) {
+        if (start < 0  ||  stop < start  ||  stop > safe_len(content)) {
           throw WalkError("walker: list range outside content");
         }
         spend();
@@ -152,7 +160,7 @@ namespace awsim {
         if (const ak::IndexedArrayOf<T, OPT>* a = dynamic_cast<const ak::IndexedArrayOf<T, OPT>*>(c)) {
           int64_t j = (int64_t)a->index().getitem_at_nowrap(i);
           if (OPT  &&  j < 0) { spend(); out += "null"; return true; }
-          if (j < 0  ||  j >= a->content()->length()) throw WalkError("walker: index outside content");
+          if (j < 0  ||  j >= safe_len(a->content().get())) throw WalkError("walker: index outside content");
           element(a->content().get(), j);
           return true;
         }
@@ -167,7 +175,7 @@ namespace awsim {
           ak::ContentPtrVec contents = a->contents();
           if (tag < 0  ||  tag >= (int64_t)contents.size()) throw WalkError("walker: union tag outside contents");
           ak::ContentPtr sub = contents[(size_t)tag];
-          if (j < 0  ||  j >= sub->length()) throw WalkError("walker: union index outside content");
+          if (j < 0  ||  j >= safe_len(sub.get())) throw WalkError("walker: union index outside content");
           element(sub.get(), j);
           return true;
         }
@@ -203,7 +211,11 @@ namespace awsim {
       }
 
       void element(const ak::Content* c, int64_t i) {
-        if (i < 0  ||  i >= c->length()) throw WalkError("walker: element index outside array");
+        if (const ak::NumpyArray* np0 = dynamic_cast<const ak::NumpyArray*>(c)) {
+          // a 0-d NumpyArray has no length() (the accessor reads shape[0]): never ask
+          if (np0->shape().empty()) throw WalkError("walker: scalar NumpyArray where an array is expected");
+        }
+        if (i < 0  ||  i >= safe_len(c)) throw WalkError("walker: element index outside array");
         if (const ak::NumpyArray* np = dynamic_cast<const ak::NumpyArray*>(c)) {
           if (np->shape().empty()) throw WalkError("walker: scalar NumpyArray");
           const uint8_t* p = reinterpret_cast<const uint8_t*>(np->data()) + i * np->strides()[0];
